@@ -71,7 +71,7 @@ func (Engine) Describe(prop string) core.Description {
 			"the package's map-range loops under per-task seeded map orders",
 		},
 		Stub: []string{"the scheduler: one task runs at a time; at every instrumented function entry / loop iteration a seeded policy (uniform, PCT priorities, round-robin quantum, run-to-completion) picks the next task; the token is passed over raw pipes so that no happens-before edge is added"},
-		Rule: "one run = one seeded coherent schema (2..5 types), 2..16 tasks with 1..8 operations each on private inputs (MarshalDocument now and then of a page of 100..500 resources: rarely in the quick tier, one run in four in the thorough tier), one seeded schedule; oracles: O1 race report with a package frame, O2 any change of the deep schema fingerprint (slice header, map identities and contents, rels cache) observed after a scheduler step, O3 every operation's rendered result equals the same operation run alone on an identical fresh schema under the same per-task map orders, O4 no panic; " +
+		Rule: "one run = one seeded coherent schema (2..5 types; in a quarter of the runs reached through a longer edit history), 2..16 tasks with 1..8 operations each on private inputs (MarshalDocument now and then of a page of 100..500 resources: rarely in the quick tier, one run in four in the thorough tier), one seeded schedule; oracles: O1 race report with a package frame, O2 any change of the deep schema fingerprint (slice header, map identities and contents, rels cache) observed after a scheduler step, O3 every operation's rendered result equals the same operation run alone on an identical fresh schema under the same per-task map orders, O4 no panic; " +
 			"non-trivial = at least 2 tasks, 1 context switch and 3 operations; distinct = distinct event-log hash (includes the schedule hash); distinct_model_states counts distinct schedule hashes",
 		Assumptions: []string{
 			"O1 is sound but incomplete and not perfectly replayable (sync.Pool inside fmt / encoding/json adds real happens-before edges at random in race builds); O2, O3, O4 are deterministic and decide replay",
@@ -79,7 +79,7 @@ func (Engine) Describe(prop string) core.Description {
 			"yield points are function entries and loop iterations of the package (instrumented scratch copy); preemption inside a single statement is not simulated but would be reported by O1 when the accesses conflict",
 		},
 		FaultKinds: []string{"forced-preemption (the scheduler takes the processor away at a yield point)"},
-		Probes: []string{"policy-uniform", "policy-pct", "policy-round-robin", "policy-run-to-completion", "tasks>=8", "op-NewURLFromRaw", "op-UnmarshalDocument", "op-UnmarshalPartialResource", "op-New-Set-Get", "op-MarshalDocument", "op-GetType", "op-HasType", "op-Check", "op-Rels", "op-Wrap-own-struct", "marshal-of-a-large-page", "context-switch-inside-Rels", "race-log-checked", "schema-with-dangling-target"},
+		Probes: []string{"policy-uniform", "policy-pct", "policy-round-robin", "policy-run-to-completion", "tasks>=8", "op-NewURLFromRaw", "op-UnmarshalDocument", "op-UnmarshalPartialResource", "op-New-Set-Get", "op-MarshalDocument", "op-GetType", "op-HasType", "op-Check", "op-Rels", "op-Wrap-own-struct", "marshal-of-a-large-page", "schema-built-through-edit-history", "context-switch-inside-Rels", "race-log-checked", "schema-with-dangling-target"},
 	}
 }
 
